@@ -39,7 +39,8 @@ Section WifProofs.
   Lemma wif_decode_payload s nv k c : check_decode s = Ok (wif_payload nv k c) -> valid_key k = true ->
     wif_decode s [nv] = Ok (k, c).
   Proof.
-    intros D V. unfold Wif.wif_decode. rewrite D. unfold wif_payload. cbn [bind Ok length Nat.eqb hd_error of_option ord1 tl].
+    intros D V. unfold Wif.wif_decode. cbn [length Nat.eqb negb]. rewrite D. unfold wif_payload.
+    cbn [bind Ok length Nat.eqb hd_error of_option ord1 tl app].
     rewrite N.eqb_refl. cbn [negb]. destruct c.
     - rewrite drop_last_snoc, V, last_byte_snoc. cbn [bind Ok]. rewrite N.eqb_refl. reflexivity.
     - rewrite app_nil_r. rewrite (drop_last_short k V), V. reflexivity.
@@ -50,9 +51,11 @@ Section WifProofs.
     exists nv, nvb = [nv] /\ valid_key k = true /\ check_decode s = Ok (wif_payload nv k c).
   Proof.
     split.
-    - unfold Wif.wif_decode. destruct (check_decode s) as [p|] eqn:D; cbn [bind Ok]; [|discriminate].
+    - unfold Wif.wif_decode.
+      destruct nvb as [|nv [|? ?]]; cbn [length Nat.eqb negb]; try discriminate.
+      destruct (check_decode s) as [p|] eqn:D; cbn [bind Ok]; [|discriminate].
       destruct p as [|first rest]; cbn [length Nat.eqb hd_error of_option bind Ok tl]; [discriminate|].
-      destruct nvb as [|nv [|? ?]]; cbn [ord1 bind Ok]; try discriminate.
+      cbn [ord1 bind Ok].
       destruct (N.eqb_spec first nv) as [->|]; cbn [negb]; [|discriminate].
       destruct (valid_key (drop_last 1 rest)) eqn:V1.
       + destruct (last_byte rest) as [l|] eqn:L; cbn [bind Ok]; [|discriminate].
@@ -71,15 +74,22 @@ Section WifProofs.
   Theorem wif_encode_err k nvb c e : wif_encode k nvb c = Err e -> e = ValueError /\ valid_key k = false.
   Proof. unfold Wif.wif_encode. destruct (valid_key k); cbn [negb]; [discriminate|]. intros X; inversion X; auto. Qed.
 
-  (* failures: ValueError, Base58ChecksumError, or TypeError exactly when net_ver is not one byte and the
-     payload is not empty *)
-  Theorem wif_decode_err s nvb e : wif_decode s nvb = Err e ->
-    e = ValueError \/ e = LibError Base58ChecksumError \/ (e = TypeError /\ length nvb <> 1%nat).
+  (* failures: ValueError or Base58ChecksumError only (a net_ver that is not one byte is a ValueError) *)
+  Theorem wif_decode_bad_net_ver s nvb : length nvb <> 1%nat -> wif_decode s nvb = Err ValueError.
   Proof.
-    unfold Wif.wif_decode. destruct (check_decode s) as [p|e'] eqn:D; cbn [bind Ok].
+    intros L. unfold Wif.wif_decode. destruct nvb as [|nv [|? ?]]; cbn [length Nat.eqb negb]; try reflexivity.
+    exfalso; apply L; reflexivity.
+  Qed.
+
+  Theorem wif_decode_err s nvb e : wif_decode s nvb = Err e ->
+    e = ValueError \/ e = LibError Base58ChecksumError.
+  Proof.
+    unfold Wif.wif_decode.
+    destruct nvb as [|nv [|? ?]]; cbn [length Nat.eqb negb]; try solve [intros X; inversion X; auto].
+    destruct (check_decode s) as [p|e'] eqn:D; cbn [bind Ok].
     2:{ intros X; inversion X; subst. apply (check_decode_err alph radix cklen sha256) in D. tauto. }
     destruct p as [|first rest]; cbn [length Nat.eqb hd_error of_option bind Ok tl]; [intros X; inversion X; auto|].
-    destruct nvb as [|nv [|? ?]]; cbn [ord1 bind Ok]; try (intros X; inversion X; subst; right; right; split; [reflexivity|discriminate]).
+    cbn [ord1 bind Ok].
     destruct (first =? nv); cbn [negb]; [|intros X; inversion X; auto].
     destruct (valid_key (drop_last 1 rest)) eqn:V1.
     - destruct (last_byte rest) as [l|] eqn:L; cbn [bind Ok].
